@@ -3270,4 +3270,654 @@ theorem clauseDeleteNames_sound {s : State} (op : Op) :
   | _ => rfl
 
 
+
+/-! ### include / share-all / add-all: declarative specification (prefix semantics) -/
+
+
+
+
+theorem takeWhile_congr' {α : Type} {p q : α → Bool} : ∀ {l : List α}, (∀ x ∈ l, p x = q x) →
+    l.takeWhile p = l.takeWhile q
+  | [], _ => rfl
+  | a :: t, h => by
+    simp only [List.takeWhile_cons, h a (List.mem_cons_self ..)]
+    rw [takeWhile_congr' (fun x hx => h x (List.mem_cons_of_mem _ hx))]
+
+theorem filter_congr' {α : Type} {p q : α → Bool} {l : List α} (h : ∀ x ∈ l, p x = q x) :
+    l.filter p = l.filter q := List.filter_congr h
+
+theorem find?_append_new {h : Store} {l : List ObjId} {x : ObjId} {n : String} (hx : nameOf h x ≠ n) :
+    find? h (l ++ [x]) n = find? h l n := by
+  unfold find?
+  rw [List.find?_append]
+  cases List.find? (fun i => nameOf h i == n) l with
+  | some i => rfl
+  | none => simp [hx]
+
+theorem expectedSome_cons_other {h : Store} {l : List ObjId} {s : ObjId} {rest : List ObjId} {i : ObjId}
+    (hs : find? h l (nameOf h s) ≠ some i) : expectedSome h l (s :: rest) i = expectedSome h l rest i := by
+  unfold expectedSome
+  rw [List.find?_cons]
+  have : (find? h l (nameOf h s) == some i) = false := by simpa using hs
+  rw [this]
+
+theorem expectedSome_cons_self {h : Store} {l : List ObjId} {s : ObjId} {rest : List ObjId} {t : ObjId}
+    (hs : find? h l (nameOf h s) = some t) :
+    expectedSome h l (s :: rest) t = { h.get t with value := (h.get s).value } := by
+  unfold expectedSome
+  rw [List.find?_cons]
+  simp [hs]
+
+theorem expectedSome_untargeted {h : Store} {l : List ObjId} {src : List ObjId} {i : ObjId}
+    (hs : ∀ s ∈ src, find? h l (nameOf h s) ≠ some i) : expectedSome h l src i = h.get i := by
+  unfold expectedSome
+  have : src.find? (fun s => find? h l (nameOf h s) == some i) = none := by
+    rw [List.find?_eq_none]; intro s hs'; simpa using hs s hs'
+  rw [this]
+
+/-- `expectedSome` only looks at names, at the values of the sources and at the object itself -/
+theorem expectedSome_congr {h h' : Store} {l l' : List ObjId} {src : List ObjId} {i : ObjId}
+    (hf : ∀ s ∈ src, (find? h' l' (nameOf h' s) == some i) = (find? h l (nameOf h s) == some i))
+    (hv : ∀ s ∈ src, (h'.get s).value = (h.get s).value) (hi : h'.get i = h.get i) :
+    expectedSome h' l' src i = expectedSome h l src i := by
+  induction src with
+  | nil => simp [expectedSome, hi]
+  | cons s rest ih =>
+    have ih' := ih (fun x hx => hf x (List.mem_cons_of_mem _ hx)) (fun x hx => hv x (List.mem_cons_of_mem _ hx))
+    unfold expectedSome at ih' ⊢
+    rw [List.find?_cons, List.find?_cons, hf s (List.mem_cons_self ..)]
+    cases find? h l (nameOf h s) == some i
+    · exact ih'
+    · simp [hi, hv s (List.mem_cons_self ..)]
+
+
+
+theorem rejColl_congr {h h' : Store} {l l' : List ObjId} {s : ObjId}
+    (hf : find? h' l' (nameOf h' s) = find? h l (nameOf h s))
+    (hs : h'.get s = h.get s) (ht : ∀ t, find? h l (nameOf h s) = some t → h'.get t = h.get t) :
+    rejColl h' l' s = rejColl h l s := by
+  unfold rejColl
+  rw [hf]
+  cases e : find? h l (nameOf h s) with
+  | none => rfl
+  | some t => simp only [hs, ht t e]
+
+theorem hasParameter_eq_of_find? {h h' : Store} {l l' : List ObjId} {n n' : String}
+    (hf : find? h' l' n' = find? h l n) : hasParameter h' l' n' = hasParameter h l n := by
+  rw [← find?_isSome, ← find?_isSome, hf]
+
+theorem includeParameters_spec (src : List ObjId) (h : Store) (l : List ObjId)
+    (v : Valid h l) (vs : Valid h src) (ndl : (names h l).Nodup) (nds : (names h src).Nodup) :
+    let r := includeParameters h l src
+    r.err = (if (mergePrefix h l src).length = src.length then none else some .constraint) ∧
+    r.list = l ++ List.range' h.next (mergeNews h l src).length ∧
+    r.heap.next = h.next + (mergeNews h l src).length ∧
+    (List.range' h.next (mergeNews h l src).length).map r.heap.get = (mergeNews h l src).map h.get ∧
+    (∀ i, i < h.next → r.heap.get i = expectedSome h l (mergePrefix h l src) i) := by
+  induction src generalizing h l with
+  | nil => simp [includeParameters, mergePrefix, mergeNews, expectedSome]
+  | cons s rest ih =>
+    have hsv := vs s (List.mem_cons_self ..)
+    have vr : Valid h rest := fun j hj => vs j (List.mem_cons_of_mem _ hj)
+    have nd' := List.nodup_cons.1 nds
+    have hne : ∀ x ∈ rest, nameOf h x ≠ nameOf h s := fun x hx => ne_of_name_not_mem nd'.1 hx
+    by_cases hc : hasParameter h l (nameOf h s) = true
+    · -- collision
+      have hsome : (find? h l (nameOf h s)).isSome = true := by rw [find?_isSome]; exact hc
+      obtain ⟨t, e⟩ := Option.isSome_iff_exists.1 hsome
+      have ht := find?_some e
+      by_cases hr : rejColl h l s = true
+      · -- refused: stop here
+        have hr' : (h.get t).rejects (h.get s).value = true ∧ (h.get s).value ≠ (h.get t).value := by
+          simpa [rejColl, e] using hr
+        have hset : (h.get t).setValue (h.get s).value = .error .constraint := by
+          simp [Par.setValue, hr'.1, hr'.2]
+        have e0 : includeParameters h l (s :: rest) = { heap := h, list := l, err := some .constraint } := by
+          simp [includeParameters, hc, setParameterValue, e, hset]
+        have p0 : mergePrefix h l (s :: rest) = [] := by simp [mergePrefix, List.takeWhile_cons, hr]
+        have n0 : mergeNews h l (s :: rest) = [] := by simp [mergeNews, p0]
+        rw [e0, p0, n0]
+        simp [expectedSome]
+      · -- accepted
+        have hr0 : rejColl h l s = false := by simpa using hr
+        obtain ⟨q, hq⟩ : ∃ q, (h.get t).setValue (h.get s).value = .ok q := by
+          by_cases hv : (h.get s).value = (h.get t).value
+          · rw [hv]; exact ⟨_, setValue_self _⟩
+          · apply setValue_noerr_of_accepts
+            have : ¬ ((h.get t).rejects (h.get s).value = true ∧ (h.get s).value ≠ (h.get t).value) := by
+              simpa [rejColl, e] using hr
+            cases hrj : (h.get t).rejects (h.get s).value with
+            | false => rfl
+            | true => exact absurd ⟨hrj, hv⟩ this
+        obtain ⟨q1, q2, _, q4⟩ := setValue_ok hq
+        have ss1 : SameShape h (h.put t q) := (SameShape.refl h).put_setValue hq
+        have v2 : ∀ x, x ≠ t → (h.put t q).get x = h.get x := fun x hx => by simp [hx]
+        have e0 : includeParameters h l (s :: rest) = includeParameters (h.put t q) l rest := by
+          simp [includeParameters, hc, setParameterValue, e, hq]
+        have hnt : ∀ x ∈ rest, x ≠ t := fun x hx c => hne x hx (by rw [c, ht.2])
+        have htt : ∀ x ∈ rest, ∀ t', find? h l (nameOf h x) = some t' → t' ≠ t := by
+          intro x hx t' ht' c; subst c
+          exact hne x hx ((find?_some ht').2.symm.trans ht.2)
+        have hrc : ∀ x ∈ rest, rejColl (h.put t q) l x = rejColl h l x := fun x hx =>
+          rejColl_congr (by rw [ss1.nameOf, ss1.find?]) (v2 x (hnt x hx)) (fun t' ht' => v2 t' (htt x hx t' ht'))
+        have hhp : ∀ x ∈ rest, hasParameter (h.put t q) l (nameOf (h.put t q) x) = hasParameter h l (nameOf h x) :=
+          fun x hx => hasParameter_eq_of_find? (by rw [ss1.nameOf, ss1.find?])
+        have p1 : mergePrefix (h.put t q) l rest = mergePrefix h l rest :=
+          takeWhile_congr' (fun x hx => by rw [hrc x hx])
+        have p0 : mergePrefix h l (s :: rest) = s :: mergePrefix h l rest := by
+          simp [mergePrefix, List.takeWhile_cons, hr0]
+        have hsub : ∀ x ∈ mergePrefix h l rest, x ∈ rest := fun x hx => (List.takeWhile_sublist _).subset hx
+        have n1 : mergeNews (h.put t q) l rest = mergeNews h l rest := by
+          unfold mergeNews; rw [p1]
+          exact filter_congr' (fun x hx => by rw [hhp x (hsub x hx)])
+        have n0 : mergeNews h l (s :: rest) = mergeNews h l rest := by
+          simp [mergeNews, p0, List.filter_cons, hc]
+        obtain ⟨i1, i2, i3, i4, i5⟩ := ih (h.put t q) l v (vr : Valid (h.put t q) rest)
+          (by rw [ss1.names]; exact ndl) (by rw [ss1.names]; exact nd'.2)
+        simp only [p1, n1, next_put] at i1 i2 i3 i4 i5
+        rw [e0, p0, n0]
+        refine ⟨?_, i2, i3, ?_, ?_⟩
+        · rw [i1]; simp
+        · rw [i4]
+          apply List.map_congr_left
+          intro x hx
+          have hxr : x ∈ rest := hsub x ((List.filter_sublist).subset hx)
+          exact v2 x (hnt x hxr)
+        · intro i hi
+          rw [i5 i hi]
+          by_cases hit : i = t
+          · subst hit
+            rw [expectedSome_cons_self e, expectedSome_untargeted]
+            · rw [get_put, if_pos rfl]; exact par_ext q1 q4 q2
+            · intro x hx c
+              rw [ss1.nameOf, ss1.find?] at c
+              exact htt x (hsub x hx) i c rfl
+          · rw [expectedSome_cons_other (by rw [e]; exact fun c => hit (Option.some.inj c).symm)]
+            exact expectedSome_congr (fun x hx => by rw [ss1.nameOf, ss1.find?])
+              (fun x hx => by rw [v2 x (hnt x (hsub x hx))]) (v2 i hit)
+    · -- a new name: a clone is appended
+      have hc0 : hasParameter h l (nameOf h s) = false := by simpa using hc
+      have enone : find? h l (nameOf h s) = none := find?_none.2 ((hasParameter_false_iff _ _ _).1 hc0)
+      have e0 : includeParameters h l (s :: rest) =
+          includeParameters (h.alloc (h.get s)).1 (l ++ [h.next]) rest := by
+        simp [includeParameters, hc0]
+      have pr := pres_clone h hsv
+      have g := addParameter_good (h := h) (l := l) (h.get s) v (fun hk => hk s hsv)
+      have eadd : addParameter h l (h.get s) = { heap := (h.alloc (h.get s)).1, list := l ++ [h.next] } := by
+        simp [addParameter, show hasParameter h l (h.get s).name = false from hc0]
+      rw [eadd] at g
+      have gv : ∀ x, x < h.next → (h.alloc (h.get s)).1.get x = h.get x := fun x hx => by
+        simp [Nat.ne_of_lt hx]
+      have gn : nameOf (h.alloc (h.get s)).1 h.next = nameOf h s := by simp [nameOf]
+      have hfind : ∀ x ∈ rest, find? (h.alloc (h.get s)).1 (l ++ [h.next]) (nameOf (h.alloc (h.get s)).1 x)
+          = find? h l (nameOf h x) := by
+        intro x hx
+        rw [pr.name_eq x (vr x hx), find?_append_new (by rw [gn]; exact (hne x hx).symm)]
+        exact find?_congr (fun i hi => pr.name_eq i (v i hi)) _
+      have hrc : ∀ x ∈ rest, rejColl (h.alloc (h.get s)).1 (l ++ [h.next]) x = rejColl h l x := fun x hx =>
+        rejColl_congr (hfind x hx) (gv x (vr x hx)) (fun t' ht' => gv t' (find?_valid v ht'))
+      have hhp : ∀ x ∈ rest, hasParameter (h.alloc (h.get s)).1 (l ++ [h.next]) (nameOf (h.alloc (h.get s)).1 x)
+          = hasParameter h l (nameOf h x) := fun x hx => hasParameter_eq_of_find? (hfind x hx)
+      have p1 : mergePrefix (h.alloc (h.get s)).1 (l ++ [h.next]) rest = mergePrefix h l rest :=
+        takeWhile_congr' (fun x hx => by rw [hrc x hx])
+      have hr0 : rejColl h l s = false := by simp [rejColl, enone]
+      have p0 : mergePrefix h l (s :: rest) = s :: mergePrefix h l rest := by
+        simp [mergePrefix, List.takeWhile_cons, hr0]
+      have hsub : ∀ x ∈ mergePrefix h l rest, x ∈ rest := fun x hx => (List.takeWhile_sublist _).subset hx
+      have n1 : mergeNews (h.alloc (h.get s)).1 (l ++ [h.next]) rest = mergeNews h l rest := by
+        unfold mergeNews; rw [p1]
+        exact filter_congr' (fun x hx => by rw [hhp x (hsub x hx)])
+      have n0 : mergeNews h l (s :: rest) = s :: mergeNews h l rest := by
+        simp [mergeNews, p0, List.filter_cons, hc0]
+      obtain ⟨i1, i2, i3, i4, i5⟩ := ih (h.alloc (h.get s)).1 (l ++ [h.next]) g.valid (vr.mono pr)
+        (g.nodup ndl) (by rw [pr.names vr]; exact nd'.2)
+      simp only [p1, n1, next_alloc] at i1 i2 i3 i4 i5
+      rw [e0, p0, n0]
+      refine ⟨?_, ?_, ?_, ?_, ?_⟩
+      · rw [i1]; simp
+      · rw [i2]; simp [List.range'_succ]
+      · rw [i3]; simp only [List.length_cons]; omega
+      · simp only [List.length_cons, List.range'_succ, List.map_cons]
+        rw [i4, i5 h.next (by omega), expectedSome_untargeted]
+        · simp only [get_alloc, if_true]
+          congr 1
+          apply List.map_congr_left
+          intro x hx
+          exact gv x (vr x (hsub x ((List.filter_sublist).subset hx)))
+        · intro x hx c
+          rw [hfind x (hsub x hx)] at c
+          exact absurd (find?_valid v c) (Nat.lt_irrefl _)
+      · intro i hi
+        rw [i5 i (by omega), expectedSome_cons_other (by rw [enone]; simp)]
+        exact expectedSome_congr (fun x hx => by rw [hfind x (hsub x hx)])
+          (fun x hx => by rw [gv x (vr x (hsub x hx))]) (gv i hi)
+
+
+
+theorem shareParameters_full_spec (src : List ObjId) (h : Store) (l : List ObjId)
+    (ndl : (names h l).Nodup) (nds : (names h src).Nodup) :
+    let r := shareParameters h l src
+    r.err = (if (mergePrefix h l src).length = src.length then none else some .constraint) ∧
+    r.list = l ++ mergeNews h l src ∧ r.heap.next = h.next ∧
+    (∀ i, r.heap.get i = expectedSome h l (mergePrefix h l src) i) := by
+  induction src generalizing h l with
+  | nil => simp [shareParameters, mergePrefix, mergeNews, expectedSome]
+  | cons s rest ih =>
+    have nd' := List.nodup_cons.1 nds
+    have hne : ∀ x ∈ rest, nameOf h x ≠ nameOf h s := fun x hx => ne_of_name_not_mem nd'.1 hx
+    by_cases hc : hasParameter h l (nameOf h s) = true
+    · have hsome : (find? h l (nameOf h s)).isSome = true := by rw [find?_isSome]; exact hc
+      obtain ⟨t, e⟩ := Option.isSome_iff_exists.1 hsome
+      have ht := find?_some e
+      by_cases hr : rejColl h l s = true
+      · have hr' : (h.get t).rejects (h.get s).value = true ∧ (h.get s).value ≠ (h.get t).value := by
+          simpa [rejColl, e] using hr
+        have hset : (h.get t).setValue (h.get s).value = .error .constraint := by
+          simp [Par.setValue, hr'.1, hr'.2]
+        have e0 : shareParameters h l (s :: rest) = { heap := h, list := l, err := some .constraint } := by
+          simp [shareParameters, shareParameter, hc, setParameterValue, e, hset]
+        have p0 : mergePrefix h l (s :: rest) = [] := by simp [mergePrefix, List.takeWhile_cons, hr]
+        have n0 : mergeNews h l (s :: rest) = [] := by simp [mergeNews, p0]
+        rw [e0, p0, n0]
+        simp [expectedSome]
+      · have hr0 : rejColl h l s = false := by simpa using hr
+        obtain ⟨q, hq⟩ : ∃ q, (h.get t).setValue (h.get s).value = .ok q := by
+          by_cases hv : (h.get s).value = (h.get t).value
+          · rw [hv]; exact ⟨_, setValue_self _⟩
+          · apply setValue_noerr_of_accepts
+            have : ¬ ((h.get t).rejects (h.get s).value = true ∧ (h.get s).value ≠ (h.get t).value) := by
+              simpa [rejColl, e] using hr
+            cases hrj : (h.get t).rejects (h.get s).value with
+            | false => rfl
+            | true => exact absurd ⟨hrj, hv⟩ this
+        obtain ⟨q1, q2, _, q4⟩ := setValue_ok hq
+        have ss1 : SameShape h (h.put t q) := (SameShape.refl h).put_setValue hq
+        have v2 : ∀ x, x ≠ t → (h.put t q).get x = h.get x := fun x hx => by simp [hx]
+        have e0 : shareParameters h l (s :: rest) = shareParameters (h.put t q) l rest := by
+          simp [shareParameters, shareParameter, hc, setParameterValue, e, hq]
+        have hnt : ∀ x ∈ rest, x ≠ t := fun x hx c => hne x hx (by rw [c, ht.2])
+        have htt : ∀ x ∈ rest, ∀ t', find? h l (nameOf h x) = some t' → t' ≠ t := by
+          intro x hx t' ht' c; subst c
+          exact hne x hx ((find?_some ht').2.symm.trans ht.2)
+        have hrc : ∀ x ∈ rest, rejColl (h.put t q) l x = rejColl h l x := fun x hx =>
+          rejColl_congr (by rw [ss1.nameOf, ss1.find?]) (v2 x (hnt x hx)) (fun t' ht' => v2 t' (htt x hx t' ht'))
+        have hhp : ∀ x ∈ rest, hasParameter (h.put t q) l (nameOf (h.put t q) x) = hasParameter h l (nameOf h x) :=
+          fun x hx => hasParameter_eq_of_find? (by rw [ss1.nameOf, ss1.find?])
+        have p1 : mergePrefix (h.put t q) l rest = mergePrefix h l rest :=
+          takeWhile_congr' (fun x hx => by rw [hrc x hx])
+        have p0 : mergePrefix h l (s :: rest) = s :: mergePrefix h l rest := by
+          simp [mergePrefix, List.takeWhile_cons, hr0]
+        have hsub : ∀ x ∈ mergePrefix h l rest, x ∈ rest := fun x hx => (List.takeWhile_sublist _).subset hx
+        have n1 : mergeNews (h.put t q) l rest = mergeNews h l rest := by
+          unfold mergeNews; rw [p1]
+          exact filter_congr' (fun x hx => by rw [hhp x (hsub x hx)])
+        have n0 : mergeNews h l (s :: rest) = mergeNews h l rest := by
+          simp [mergeNews, p0, List.filter_cons, hc]
+        obtain ⟨i1, i2, i3, i5⟩ := ih (h.put t q) l (by rw [ss1.names]; exact ndl) (by rw [ss1.names]; exact nd'.2)
+        simp only [p1, n1, next_put] at i1 i2 i3 i5
+        rw [e0, p0, n0]
+        refine ⟨?_, i2, i3, ?_⟩
+        · rw [i1]; simp
+        · intro i
+          rw [i5 i]
+          by_cases hit : i = t
+          · subst hit
+            rw [expectedSome_cons_self e, expectedSome_untargeted]
+            · rw [get_put, if_pos rfl]; exact par_ext q1 q4 q2
+            · intro x hx c
+              rw [ss1.nameOf, ss1.find?] at c
+              exact htt x (hsub x hx) i c rfl
+          · rw [expectedSome_cons_other (by rw [e]; exact fun c => hit (Option.some.inj c).symm)]
+            exact expectedSome_congr (fun x hx => by rw [ss1.nameOf, ss1.find?])
+              (fun x hx => by rw [v2 x (hnt x (hsub x hx))]) (v2 i hit)
+    · have hc0 : hasParameter h l (nameOf h s) = false := by simpa using hc
+      have enone : find? h l (nameOf h s) = none := find?_none.2 ((hasParameter_false_iff _ _ _).1 hc0)
+      have e0 : shareParameters h l (s :: rest) = shareParameters h (l ++ [s]) rest := by
+        simp [shareParameters, shareParameter, hc0]
+      have hfind : ∀ x ∈ rest, find? h (l ++ [s]) (nameOf h x) = find? h l (nameOf h x) :=
+        fun x hx => find?_append_new (hne x hx).symm
+      have hrc : ∀ x ∈ rest, rejColl h (l ++ [s]) x = rejColl h l x := fun x hx =>
+        rejColl_congr (hfind x hx) rfl (fun _ _ => rfl)
+      have hhp : ∀ x ∈ rest, hasParameter h (l ++ [s]) (nameOf h x) = hasParameter h l (nameOf h x) :=
+        fun x hx => hasParameter_eq_of_find? (hfind x hx)
+      have p1 : mergePrefix h (l ++ [s]) rest = mergePrefix h l rest :=
+        takeWhile_congr' (fun x hx => by rw [hrc x hx])
+      have hr0 : rejColl h l s = false := by simp [rejColl, enone]
+      have p0 : mergePrefix h l (s :: rest) = s :: mergePrefix h l rest := by
+        simp [mergePrefix, List.takeWhile_cons, hr0]
+      have hsub : ∀ x ∈ mergePrefix h l rest, x ∈ rest := fun x hx => (List.takeWhile_sublist _).subset hx
+      have n1 : mergeNews h (l ++ [s]) rest = mergeNews h l rest := by
+        unfold mergeNews; rw [p1]
+        exact filter_congr' (fun x hx => by rw [hhp x (hsub x hx)])
+      have n0 : mergeNews h l (s :: rest) = s :: mergeNews h l rest := by
+        simp [mergeNews, p0, List.filter_cons, hc0]
+      have ndl1 : (names h (l ++ [s])).Nodup := by
+        rw [names_append]
+        refine List.nodup_append.2 ⟨ndl, by simp [names], ?_⟩
+        intro a ha b hb
+        simp only [names, List.map_cons, List.map_nil, List.mem_singleton] at hb
+        subst hb
+        exact fun c => (hasParameter_false_iff _ _ _).1 hc0 (c ▸ ha)
+      obtain ⟨i1, i2, i3, i5⟩ := ih h (l ++ [s]) ndl1 nd'.2
+      simp only [p1, n1] at i1 i2 i3 i5
+      rw [e0, p0, n0]
+      refine ⟨?_, ?_, i3, ?_⟩
+      · rw [i1]; simp
+      · rw [i2]; simp
+      · intro i
+        rw [i5 i, expectedSome_cons_other (by rw [enone]; simp)]
+        exact expectedSome_congr (fun x hx => by rw [hfind x (hsub x hx)]) (fun _ _ => rfl) rfl
+
+
+theorem addParameters_full_spec (src : List ObjId) (h : Store) (l : List ObjId)
+    (v : Valid h l) (vs : Valid h src) (ndl : (names h l).Nodup) (nds : (names h src).Nodup) :
+    let r := addParameters h l src
+    r.err = (if (addPrefix h l src).length = src.length then none else some .bpp) ∧
+    r.list = l ++ List.range' h.next (addPrefix h l src).length ∧
+    r.heap.next = h.next + (addPrefix h l src).length ∧
+    (List.range' h.next (addPrefix h l src).length).map r.heap.get = (addPrefix h l src).map h.get ∧
+    (∀ i, i < h.next → r.heap.get i = h.get i) := by
+  induction src generalizing h l with
+  | nil => simp [addParameters, addPrefix]
+  | cons s rest ih =>
+    have hsv := vs s (List.mem_cons_self ..)
+    have vr : Valid h rest := fun j hj => vs j (List.mem_cons_of_mem _ hj)
+    have nd' := List.nodup_cons.1 nds
+    have hne : ∀ x ∈ rest, nameOf h x ≠ nameOf h s := fun x hx => ne_of_name_not_mem nd'.1 hx
+    by_cases hc : hasParameter h l (nameOf h s) = true
+    · have e0 : addParameters h l (s :: rest) = { heap := h, list := l, err := some .bpp } := by
+        simp [addParameters, addParameter, show hasParameter h l (h.get s).name = true from hc]
+      have p0 : addPrefix h l (s :: rest) = [] := by simp [addPrefix, List.takeWhile_cons, hc]
+      rw [e0, p0]; simp
+    · have hc0 : hasParameter h l (nameOf h s) = false := by simpa using hc
+      have eadd : addParameter h l (h.get s) = { heap := (h.alloc (h.get s)).1, list := l ++ [h.next] } := by
+        simp [addParameter, show hasParameter h l (h.get s).name = false from hc0]
+      have e0 : addParameters h l (s :: rest) = addParameters (h.alloc (h.get s)).1 (l ++ [h.next]) rest := by
+        simp [addParameters, eadd]
+      have pr := pres_clone h hsv
+      have g := addParameter_good (h := h) (l := l) (h.get s) v (fun hk => hk s hsv)
+      rw [eadd] at g
+      have gv : ∀ x, x < h.next → (h.alloc (h.get s)).1.get x = h.get x := fun x hx => by
+        simp [Nat.ne_of_lt hx]
+      have gn : nameOf (h.alloc (h.get s)).1 h.next = nameOf h s := by simp [nameOf]
+      have hfind : ∀ x ∈ rest, find? (h.alloc (h.get s)).1 (l ++ [h.next]) (nameOf (h.alloc (h.get s)).1 x)
+          = find? h l (nameOf h x) := by
+        intro x hx
+        rw [pr.name_eq x (vr x hx), find?_append_new (by rw [gn]; exact (hne x hx).symm)]
+        exact find?_congr (fun i hi => pr.name_eq i (v i hi)) _
+      have p1 : addPrefix (h.alloc (h.get s)).1 (l ++ [h.next]) rest = addPrefix h l rest :=
+        takeWhile_congr' (fun x hx => by rw [hasParameter_eq_of_find? (hfind x hx)])
+      have p0 : addPrefix h l (s :: rest) = s :: addPrefix h l rest := by
+        simp [addPrefix, List.takeWhile_cons, hc0]
+      have hsub : ∀ x ∈ addPrefix h l rest, x ∈ rest := fun x hx => (List.takeWhile_sublist _).subset hx
+      obtain ⟨i1, i2, i3, i4, i5⟩ := ih (h.alloc (h.get s)).1 (l ++ [h.next]) g.valid (vr.mono pr)
+        (g.nodup ndl) (by rw [pr.names vr]; exact nd'.2)
+      simp only [p1, next_alloc] at i1 i2 i3 i4 i5
+      rw [e0, p0]
+      refine ⟨?_, ?_, ?_, ?_, ?_⟩
+      · rw [i1]; simp
+      · rw [i2]; simp [List.range'_succ]
+      · rw [i3]; simp only [List.length_cons]; omega
+      · simp only [List.length_cons, List.range'_succ, List.map_cons]
+        rw [i4, i5 h.next (by omega)]
+        simp only [get_alloc, if_true]
+        congr 1
+        apply List.map_congr_left
+        intro x hx
+        exact gv x (vr x (hsub x hx))
+      · intro i hi
+        rw [i5 i (by omega)]; exact gv i hi
+
+
+
+/-! ### whole-parameter assignment: declarative specification -/
+
+
+
+theorem expectedPar_cons_other {h : Store} {l : List ObjId} {s : ObjId} {rest : List ObjId} {i : ObjId}
+    (hs : find? h l (nameOf h s) ≠ some i) : expectedPar h l (s :: rest) i = expectedPar h l rest i := by
+  unfold expectedPar
+  rw [List.find?_cons]
+  have : (find? h l (nameOf h s) == some i) = false := by simpa using hs
+  rw [this]
+
+theorem expectedPar_cons_self {h : Store} {l : List ObjId} {s : ObjId} {rest : List ObjId} {t : ObjId}
+    (hs : find? h l (nameOf h s) = some t) : expectedPar h l (s :: rest) t = h.get s := by
+  unfold expectedPar
+  rw [List.find?_cons]
+  simp [hs]
+
+theorem expectedPar_untargeted {h : Store} {l : List ObjId} {src : List ObjId} {i : ObjId}
+    (hs : ∀ s ∈ src, find? h l (nameOf h s) ≠ some i) : expectedPar h l src i = h.get i := by
+  unfold expectedPar
+  have : src.find? (fun s => find? h l (nameOf h s) == some i) = none := by
+    rw [List.find?_eq_none]; intro s hs'; simpa using hs s hs'
+  rw [this]
+
+theorem expectedPar_congr {h h' : Store} {l : List ObjId} {src : List ObjId} {i : ObjId}
+    (hf : ∀ s ∈ src, (find? h' l (nameOf h' s) == some i) = (find? h l (nameOf h s) == some i))
+    (hv : ∀ s ∈ src, h'.get s = h.get s) (hi : h'.get i = h.get i) :
+    expectedPar h' l src i = expectedPar h l src i := by
+  induction src with
+  | nil => simp [expectedPar, hi]
+  | cons s rest ih =>
+    have ih' := ih (fun x hx => hf x (List.mem_cons_of_mem _ hx)) (fun x hx => hv x (List.mem_cons_of_mem _ hx))
+    unfold expectedPar at ih' ⊢
+    rw [List.find?_cons, List.find?_cons, hf s (List.mem_cons_self ..)]
+    cases find? h l (nameOf h s) == some i
+    · exact ih'
+    · simp [hv s (List.mem_cons_self ..)]
+
+/-- names are untouched by `*t = *s` when `t` was found by the name of `s` -/
+theorem put_assign_names {h : Store} {t s : ObjId} (e : nameOf h t = nameOf h s) :
+    ∀ x, nameOf (h.put t (h.get s)) x = nameOf h x := by
+  intro x
+  by_cases c : x = t
+  · subst c; simp [nameOf] at e ⊢; exact e.symm
+  · simp [nameOf, c]
+
+theorem setParameters_spec (l : List ObjId) (src : List ObjId) (h : Store) (nds : (names h src).Nodup) :
+    let r := setParameters h l src
+    r.err = (if (knownPrefix h l src).length = src.length then none else some .notfound) ∧
+    r.heap.next = h.next ∧ (∀ x, nameOf r.heap x = nameOf h x) ∧
+    (∀ i, r.heap.get i = expectedPar h l (knownPrefix h l src) i) := by
+  induction src generalizing h with
+  | nil => simp [setParameters, knownPrefix, expectedPar]
+  | cons s rest ih =>
+    have nd' := List.nodup_cons.1 nds
+    have hne : ∀ x ∈ rest, nameOf h x ≠ nameOf h s := fun x hx => ne_of_name_not_mem nd'.1 hx
+    cases e : find? h l (nameOf h s) with
+    | none =>
+      have hc : hasParameter h l (nameOf h s) = false := by rw [← find?_isSome, e]; rfl
+      have p0 : knownPrefix h l (s :: rest) = [] := by simp [knownPrefix, List.takeWhile_cons, hc]
+      simp [setParameters, e, p0, expectedPar]
+    | some t =>
+      have ht := find?_some e
+      have hc : hasParameter h l (nameOf h s) = true := by rw [← find?_isSome, e]; rfl
+      have nm := put_assign_names (h := h) (t := t) (s := s) ht.2
+      have v2 : ∀ x, x ≠ t → (h.put t (h.get s)).get x = h.get x := fun x hx => by simp [hx]
+      have hnt : ∀ x ∈ rest, x ≠ t := fun x hx c => hne x hx (by rw [c, ht.2])
+      have htt : ∀ x ∈ rest, ∀ t', find? h l (nameOf h x) = some t' → t' ≠ t := by
+        intro x hx t' ht' c; subst c
+        exact hne x hx ((find?_some ht').2.symm.trans ht.2)
+      have hfind : ∀ x, find? (h.put t (h.get s)) l (nameOf (h.put t (h.get s)) x) = find? h l (nameOf h x) :=
+        fun x => by rw [nm x]; exact find?_congr (fun i _ => nm i) _
+      have p1 : knownPrefix (h.put t (h.get s)) l rest = knownPrefix h l rest :=
+        takeWhile_congr' (fun x _ => hasParameter_eq_of_find? (hfind x))
+      have p0 : knownPrefix h l (s :: rest) = s :: knownPrefix h l rest := by
+        simp [knownPrefix, List.takeWhile_cons, hc]
+      have hsub : ∀ x ∈ knownPrefix h l rest, x ∈ rest := fun x hx => (List.takeWhile_sublist _).subset hx
+      obtain ⟨i1, i2, i3, i4⟩ := ih (h.put t (h.get s))
+        (by rw [names_congr (fun i _ => nm i)]; exact nd'.2)
+      simp only [p1, next_put] at i1 i2 i4
+      simp only [setParameters, e, p0]
+      refine ⟨by rw [i1]; simp, i2, fun x => by rw [i3 x, nm x], fun i => ?_⟩
+      rw [i4 i]
+      by_cases hit : i = t
+      · subst hit
+        rw [expectedPar_cons_self e, expectedPar_untargeted]
+        · simp
+        · intro x hx c
+          rw [hfind x] at c
+          exact htt x (hsub x hx) i c rfl
+      · rw [expectedPar_cons_other (by rw [e]; exact fun c => hit (Option.some.inj c).symm)]
+        exact expectedPar_congr (fun x _ => by rw [hfind x])
+          (fun x hx => v2 x (hnt x (hsub x hx))) (v2 i hit)
+
+theorem matchParameters_spec (l : List ObjId) (src : List ObjId) (h : Store) (nds : (names h src).Nodup) :
+    let r := matchParameters h l src
+    r.err = none ∧ r.heap.next = h.next ∧ (∀ x, nameOf r.heap x = nameOf h x) ∧
+    (∀ i, r.heap.get i = expectedPar h l src i) := by
+  induction src generalizing h with
+  | nil => simp [matchParameters, expectedPar]
+  | cons s rest ih =>
+    have nd' := List.nodup_cons.1 nds
+    have hne : ∀ x ∈ rest, nameOf h x ≠ nameOf h s := fun x hx => ne_of_name_not_mem nd'.1 hx
+    cases e : find? h l (nameOf h s) with
+    | none =>
+      obtain ⟨i1, i2, i3, i4⟩ := ih h nd'.2
+      simp only [matchParameters, e]
+      exact ⟨i1, i2, i3, fun i => by rw [i4 i, expectedPar_cons_other (by rw [e]; simp)]⟩
+    | some t =>
+      have ht := find?_some e
+      have nm := put_assign_names (h := h) (t := t) (s := s) ht.2
+      have v2 : ∀ x, x ≠ t → (h.put t (h.get s)).get x = h.get x := fun x hx => by simp [hx]
+      have hnt : ∀ x ∈ rest, x ≠ t := fun x hx c => hne x hx (by rw [c, ht.2])
+      have htt : ∀ x ∈ rest, ∀ t', find? h l (nameOf h x) = some t' → t' ≠ t := by
+        intro x hx t' ht' c; subst c
+        exact hne x hx ((find?_some ht').2.symm.trans ht.2)
+      have hfind : ∀ x, find? (h.put t (h.get s)) l (nameOf (h.put t (h.get s)) x) = find? h l (nameOf h x) :=
+        fun x => by rw [nm x]; exact find?_congr (fun i _ => nm i) _
+      obtain ⟨i1, i2, i3, i4⟩ := ih (h.put t (h.get s))
+        (by rw [names_congr (fun i _ => nm i)]; exact nd'.2)
+      simp only [next_put] at i2
+      simp only [matchParameters, e]
+      refine ⟨i1, i2, fun x => by rw [i3 x, nm x], fun i => ?_⟩
+      rw [i4 i]
+      by_cases hit : i = t
+      · subst hit
+        rw [expectedPar_cons_self e, expectedPar_untargeted]
+        · simp
+        · intro x hx c
+          rw [hfind x] at c
+          exact htt x hx i c rfl
+      · rw [expectedPar_cons_other (by rw [e]; exact fun c => hit (Option.some.inj c).symm)]
+        exact expectedPar_congr (fun x _ => by rw [hfind x]) (fun x hx => v2 x (hnt x hx)) (v2 i hit)
+
+
+theorem setAllParameters_spec (src : List ObjId) (l : List ObjId) (h : Store) (ndl : (names h l).Nodup) :
+    let r := setAllParameters h src l
+    let pre := l.takeWhile (fun i => hasParameter h src (nameOf h i))
+    r.err = (if pre.length = l.length then none else some .notfound) ∧
+    r.heap.next = h.next ∧ (∀ x, nameOf r.heap x = nameOf h x) ∧
+    (∀ i, r.heap.get i = expectedAllPar h pre src i) := by
+  induction l generalizing h with
+  | nil => simp [setAllParameters, expectedAllPar]
+  | cons a rest ih =>
+    have nd' := List.nodup_cons.1 ndl
+    have hne : ∀ x ∈ rest, nameOf h x ≠ nameOf h a := fun x hx => ne_of_name_not_mem nd'.1 hx
+    have hna : a ∉ rest := fun c => hne a c rfl
+    cases e : find? h src (nameOf h a) with
+    | none =>
+      have hc : hasParameter h src (nameOf h a) = false := by rw [← find?_isSome, e]; rfl
+      simp [setAllParameters, e, List.takeWhile_cons, hc, expectedAllPar]
+    | some j =>
+      have hj := find?_some e
+      have hc : hasParameter h src (nameOf h a) = true := by rw [← find?_isSome, e]; rfl
+      have nm := put_assign_names (h := h) (t := a) (s := j) hj.2.symm
+      have v2 : ∀ x, x ≠ a → (h.put a (h.get j)).get x = h.get x := fun x hx => by simp [hx]
+      have hfind : ∀ x, find? (h.put a (h.get j)) src (nameOf (h.put a (h.get j)) x) = find? h src (nameOf h x) :=
+        fun x => by rw [nm x]; exact find?_congr (fun i _ => nm i) _
+      -- later sources are not `a` (they carry another name)
+      have hsrc : ∀ x ∈ rest, ∀ j', find? h src (nameOf h x) = some j' → j' ≠ a := by
+        intro x hx j' hj' c; subst c
+        exact hne x hx (find?_some hj').2.symm
+      have p1 : rest.takeWhile (fun i => hasParameter (h.put a (h.get j)) src (nameOf (h.put a (h.get j)) i)) =
+          rest.takeWhile (fun i => hasParameter h src (nameOf h i)) :=
+        takeWhile_congr' (fun x _ => hasParameter_eq_of_find? (hfind x))
+      have hsub : ∀ x ∈ rest.takeWhile (fun i => hasParameter h src (nameOf h i)), x ∈ rest :=
+        fun x hx => (List.takeWhile_sublist _).subset hx
+      obtain ⟨i1, i2, i3, i4⟩ := ih (h.put a (h.get j)) (by rw [names_congr (fun i _ => nm i)]; exact nd'.2)
+      simp only [p1, next_put] at i1 i2 i4
+      simp only [setAllParameters, e, List.takeWhile_cons, hc, if_true]
+      refine ⟨by rw [i1]; simp, i2, fun x => by rw [i3 x, nm x], fun i => ?_⟩
+      rw [i4 i]
+      unfold expectedAllPar
+      by_cases hia : i = a
+      · subst hia
+        have : i ∉ rest.takeWhile (fun i => hasParameter h src (nameOf h i)) := fun c => hna (hsub i c)
+        simp [this, e]
+      · by_cases hip : i ∈ rest.takeWhile (fun i => hasParameter h src (nameOf h i))
+        · simp only [hip, if_true, List.mem_cons, hia, false_or, hfind i]
+          cases e' : find? h src (nameOf h i) with
+          | none => exact v2 i hia
+          | some j' => exact v2 j' (hsrc i (hsub i hip) j' e')
+        · simp only [hip, if_false, List.mem_cons, hia, false_or]
+          exact v2 i hia
+
+
+
+
+
+theorem freshAppended_of {b a : State} {k : Nat} {l suf : List ObjId} {content : List Par}
+    (hl : a.lists k = l ++ suf) (h1 : suf.map a.heap.get = content) (h2 : ∀ i ∈ suf, b.heap.next ≤ i)
+    (h3 : suf.Nodup) : freshAppended b a k l content = true := by
+  simp only [freshAppended, hl, List.take_left', List.drop_left', Bool.and_eq_true, beq_self_eq_true,
+    decide_eq_true_eq, List.all_eq_true, true_and]
+  exact ⟨⟨h1, h2⟩, h3⟩
+
+@[simp] theorem heap_setList (s : State) (h : Store) (k : Nat) (l : List ObjId) :
+    ((s.withHeap h).setList k l).heap = h := rfl
+
+theorem clauseMerge_sound {s : State} (inv : Inv s) (op : Op) :
+    clauseMerge s op (step s op).2.out (step s op).1 = true := by
+  have nu : ∀ j, namesUniqueB s j = true := fun j => by simp [namesUniqueB, inv.names j]
+  cases op with
+  | incl k j =>
+    obtain ⟨i1, i2, _, i4, i5⟩ := includeParameters_spec (s.lists j) s.heap (s.lists k) (inv.wf k) (inv.wf j)
+      (inv.names k) (inv.names j)
+    simp only [clauseMerge, step, stepLR, nu, Bool.and_self, Bool.not_true, Bool.false_or, Bool.and_eq_true,
+      heap_setList]
+    refine ⟨⟨?_, ?_⟩, decide_eq_true (fun i hi => i5 i hi)⟩
+    · rw [i1]; split <;> simp [Out.ofErr]
+    · exact freshAppended_of (by rw [setList_self]; exact i2) (by simpa using i4) (range'_fresh _ _).1
+        (range'_fresh _ _).2
+  | shareAll k j =>
+    obtain ⟨i1, i2, _, i5⟩ := shareParameters_full_spec (s.lists j) s.heap (s.lists k) (inv.names k) (inv.names j)
+    simp only [clauseMerge, step, stepLR, nu, Bool.and_self, Bool.not_true, Bool.false_or, Bool.and_eq_true,
+      beq_iff_eq, heap_setList]
+    refine ⟨⟨?_, by rw [setList_self]; exact i2⟩, decide_eq_true (fun i _ => i5 i)⟩
+    rw [i1]; split <;> simp [Out.ofErr]
+  | addAll k j =>
+    obtain ⟨i1, i2, _, i4, i5⟩ := addParameters_full_spec (s.lists j) s.heap (s.lists k) (inv.wf k) (inv.wf j)
+      (inv.names k) (inv.names j)
+    simp only [clauseMerge, step, stepLR, nu, Bool.and_self, Bool.not_true, Bool.false_or, Bool.and_eq_true,
+      heap_setList]
+    refine ⟨⟨?_, ?_⟩, decide_eq_true (fun i hi => i5 i hi)⟩
+    · rw [i1]; split <;> simp [Out.ofErr]
+    · exact freshAppended_of (by rw [setList_self]; exact i2) (by simpa using i4) (range'_fresh _ _).1
+        (range'_fresh _ _).2
+  | _ => rfl
+
+theorem clauseAssign_sound {s : State} (inv : Inv s) (op : Op) :
+    clauseAssign s op (step s op).2.out (step s op).1 = true := by
+  have nu : ∀ j, namesUniqueB s j = true := fun j => by simp [namesUniqueB, inv.names j]
+  cases op with
+  | matchParams k j =>
+    obtain ⟨i1, _, _, i4⟩ := matchParameters_spec (s.lists k) (s.lists j) s.heap (inv.names j)
+    simp only [clauseAssign, step, stepHR, nu, Bool.not_true, Bool.false_or, Bool.and_eq_true, beq_iff_eq]
+    exact ⟨by rw [i1]; rfl, decide_eq_true (fun i _ => i4 i)⟩
+  | setParams k j =>
+    obtain ⟨i1, _, _, i4⟩ := setParameters_spec (s.lists k) (s.lists j) s.heap (inv.names j)
+    simp only [clauseAssign, step, stepHR, nu, Bool.not_true, Bool.false_or, Bool.and_eq_true]
+    refine ⟨?_, decide_eq_true (fun i _ => i4 i)⟩
+    rw [i1]; split <;> simp [Out.ofErr]
+  | setAllParams k j =>
+    obtain ⟨i1, _, _, i4⟩ := setAllParameters_spec (s.lists j) (s.lists k) s.heap (inv.names k)
+    simp only [clauseAssign, step, stepHR, nu, Bool.not_true, Bool.false_or, Bool.and_eq_true]
+    refine ⟨?_, decide_eq_true (fun i _ => i4 i)⟩
+    rw [i1]; split <;> simp [Out.ofErr]
+  | _ => rfl
+
+
 end Bpp.ParamList
